@@ -167,8 +167,32 @@ pub fn node(args: &Args) {
             let e = nodes.into_iter().find(|(id, _)| *id == node_id).unwrap().1;
             (pm, fm, e.state.velocity_control, e.state.fee_velocity_control)
         };
+        // "burst" histories: an approval that uses most of the limit, a bucket boundary, a run of
+        // refused requests at one instant, then a request that fits only if the refusals aged
+        // the record
+        let mut plan: std::collections::VecDeque<(bool, u64, u64)> = Default::default();
+        if rng.chance(1, 4) {
+            let fee = rng.chance(1, 3);
+            let (ivl, nb, limit) = if fee { (f_ivl, f_nb, f_limit) } else { (p_ivl, p_nb, p_limit) };
+            let unit = if fee { 1000 } else { 1 };
+            let big = (limit - limit / 10) / unit * unit;
+            plan.push_back((fee, 0, big.max(unit)));
+            let first_gap = *rng.pick(&[ivl, ivl + 1, 2 * ivl, ivl - now % ivl]);
+            let k = 1 + rng.below(nb + 2);
+            for j in 0..k {
+                plan.push_back((fee, if j == 0 { first_gap } else { 0 }, (limit / 5 / unit * unit).max(unit)));
+            }
+            plan.push_back((fee, 0, (limit / 5 / unit * unit).max(unit)));
+            plan.push_back((fee, *rng.pick(&[0, 1, ivl]), (limit / 2 / unit * unit).max(unit)));
+        }
+        let len = len.max(plan.len());
         for _ in 0..len {
-            let choice = rng.below(9);
+            let forced = plan.pop_front();
+            let choice = match forced {
+                Some((true, _, _)) => 6,
+                Some((false, _, _)) => 2,
+                None => rng.below(9),
+            };
             if choice < 2 {
                 node = world.restart(&node_id);
                 n_restart += 1;
@@ -190,6 +214,7 @@ pub fn node(args: &Args) {
                 6 => ivl * nb,
                 _ => rng.below(ivl * 2),
             };
+            let gap = forced.map(|f| f.1).unwrap_or(gap);
             now += gap;
             world.clock.set(Duration::from_secs(now));
             if fee {
@@ -202,6 +227,7 @@ pub fn node(args: &Args) {
                     3 => 1,
                     _ => rng.below(lim_sat / 2) + 1,
                 };
+                let sat = forced.map(|f| f.2 / 1000).unwrap_or(sat);
                 let tx = Transaction {
                     version: Version::TWO,
                     lock_time: LockTime::ZERO,
@@ -254,6 +280,7 @@ pub fn node(args: &Args) {
                     3 => 1,
                     _ => rng.below(limit / 2) + 1,
                 };
+                let amt = forced.map(|f| f.2).unwrap_or(amt);
                 hash_ctr += 1;
                 let mut h = [0u8; 32];
                 h[0] = hash_ctr;
